@@ -28,7 +28,7 @@ def CLASSIFY(c, real, msg):
 
 
 def streams(ctx):
-    n = 8 if ctx.thorough else 1
+    n = 16 if ctx.thorough else 1
     return [("null-unpainted", "null", 400 * n), ("null-painted", "nullp", 250 * n),
             ("null-bait-ends-before-last-contig", "nulltight", 250 * n), ("null-absent-small-scaffolds", "nullabsent", 200 * n), ("null-painted-tight", "nulltightp", 100 * n)]
 
